@@ -62,7 +62,7 @@ def reference(peers, leaders_req, need_author, leaders, states, byp, approve,
 
 
 def configs(tier):
-    max_peers, max_leaders = (2, 1) if tier == 'quick' else (3, 2)
+    max_peers, max_leaders = (2, 2) if tier == 'quick' else (3, 2)
     out = []
     for peers in range(max_peers + 1):
         for lreq in range(min(peers, max_leaders) + 1):
